@@ -22,7 +22,7 @@ from drivers import crawl_scen as cs
 # clause number (CrawlMon.tla) -> (property, name)
 CLAUSES = {
     10: ('C01', 'ExitCodeZero'), 11: ('C01', 'EveryReachableRequested'), 12: ('C01', 'RequestedOnce'),
-    13: ('C01', 'AllRowsFinal'), 14: ('C01', 'Terminates'),
+    13: ('C01', 'AllRowsFinal'), 14: ('C01', 'Terminates'), 15: ('C01', 'RedirectTargetRequestedAgain'),
     20: ('C02', 'RequestOffSite'), 21: ('C02', 'RequestOutOfScope'), 22: ('C02', 'RobotsOfUnvisitedOrigin'),
     30: ('C20', 'RobotsFetchedWhenOff'), 31: ('C20', 'RobotsFetchedAgain'), 32: ('C20', 'PageBeforeRobots'),
     33: ('C20', 'DisallowedRequested'), 34: ('C20', 'NofollowLinkFollowed'),
